@@ -12,7 +12,6 @@ import (
 
 	"google.golang.org/grpc/codes"
 	"google.golang.org/grpc/internal/transport"
-	"google.golang.org/grpc/internal/verifkit/e2elife"
 	"google.golang.org/grpc/internal/verifkit/vk"
 	"google.golang.org/grpc/status"
 	"pgregory.net/rapid"
@@ -53,6 +52,19 @@ func vfC24Build(p vfC24ErrPlan) error {
 	return err
 }
 
+// vfC24CheckRPCError mirrors e2elife.CheckRPCError (that kit package imports
+// grpc and cannot be used from inside package grpc).
+func vfC24CheckRPCError(err error) string {
+	st, ok := status.FromError(err)
+	if !ok || st == nil {
+		return fmt.Sprintf("error %T %q does not carry a gRPC status", err, err.Error())
+	}
+	if c := st.Code(); c == codes.OK || uint32(c) > uint32(codes.Unauthenticated) {
+		return fmt.Sprintf("error %q carries illegal status code %d", err.Error(), uint32(c))
+	}
+	return ""
+}
+
 func vfC24Run(_ *testing.T, p vfC24ErrPlan) vk.Result {
 	in := vfC24Build(p)
 	out := toRPCErr(in)
@@ -74,7 +86,7 @@ func vfC24Run(_ *testing.T, p vfC24ErrPlan) vk.Result {
 		}
 		return vk.Bad("toRPCErr(%#v) = io.EOF", in)
 	}
-	if m := e2elife.CheckRPCError(out); m != "" {
+	if m := vfC24CheckRPCError(out); m != "" {
 		return vk.Bad("toRPCErr(%T %q): %s", in, in.Error(), m)
 	}
 	again := toRPCErr(out)
